@@ -21,7 +21,7 @@ HISTORY = {
     "C08": ("caught", ""),
     "C09": ("caught", ""),
     "C10": ("caught (facts + stalled-master load pattern)", ""),
-    "C11": ("caught", ""),
+    "C11": ("caught - by chance: a later sweep saw only the broken obligation extracted_structure", "C11 driver: 24 clients log in at once through ONE shared handle (scrypt cost 8 so that they pile up), right and wrong passwords alternating; the first wrong answer and everything overlapping it goes to the linearizability search"),
     "C12": ("caught", ""),
     "C13": ("missed", "Run/C13: a model that still wants input (Blocked) when the implementation has already answered is a disagreement; the monitor refuses an answer given while the stream is open and the bytes read so far are a proper prefix of a message (the harness had handed the model only the reads the implementation made, so giving up early looked like a truncated stream)"),
     "C14": ("caught", ""),
